@@ -26,7 +26,7 @@ def hosts(tier):
 
 
 def bounds(tier):
-    return {"int_k_max": 200, "code_points": "14 boundary points alone and in pairs" if tier == "quick" else "all 1114112", "depth": 2 if tier == "quick" else 3}
+    return {"scale": "counts 2100/4100/65535/65536/70000, strings of 70000, ints of 14000 bits, nesting chains 50/100/200", "int_k_max": 200, "code_points": "14 boundary points alone and in pairs" if tier == "quick" else "all 1114112", "depth": 2 if tier == "quick" else 3}
 
 
 def prepare(tier):
@@ -94,9 +94,34 @@ def containers(depth):
     return out
 
 
+def scale():
+    """beyond the small bounds: counts above 255 / 2000 / 65535 and nesting up to 200 (deeper chains run into the
+    interpreter's recursion limit in any pure-Python writer - an environment resource, outside the explored space)"""
+    out = []
+
+    def chain(n, mk):
+        v = 1
+        for _ in range(n):
+            v = mk(v)
+        return v
+
+    for n in (50, 100, 200):
+        out += [chain(n, lambda v: [v]), chain(n, lambda v: (v,)), chain(n, lambda v: {1: v}), chain(n // 3, lambda v: [({2: v},)])]
+    for n in (2100, 4100):
+        out += [[{} for _ in range(n)], [[] for _ in range(n)], [() for _ in range(n)], [set() for _ in range(n)], [frozenset([i]) for i in range(n)],
+                [{"id": i, "tags": [i], "pos": (i, i)} for i in range(n)], dict((i, {i: [i]}) for i in range(n)), tuple((i, (i,)) for i in range(n))]
+    out += [tuple(range(70000)), list(range(65535)), list(range(65536)), set(range(70000)), dict((i, i) for i in range(70000)),
+            b"\x00\xff" * 35000, "a" * 70000, "\xe9\u20ac" * 35000, "\U0001F600" * 70000, 2 ** 14000, -(2 ** 14000) + 1,
+            ["s" * 300] * 300, [("k%d" % i) * 50 for i in range(3000)], (1.5,) * 70000, [None] * 70000]
+    return out
+
+
 def blocks(tier):
     """(name, list of values)"""
     yield "atoms", atoms()
+    S = scale()
+    for i in range(0, len(S), 8):
+        yield "scale%d" % i, S[i:i + 8]
     I = ints()
     for i in range(0, len(I), 200):
         yield "ints%d" % i, I[i:i + 200]
